@@ -107,6 +107,9 @@ type Job struct {
 
 	mbMu    sync.Mutex
 	mbCount map[string]int
+
+	cutSet   map[string]bool // functions observed as events (not executed)
+	snapshot []string        // globals recorded at every cut call
 }
 
 // modelBudget: witnesses are searched for the first instances of a violated obligation only.
